@@ -127,4 +127,32 @@ def producerBlock (search fallbackOn validate : Bool) (windowSize dictSize : Nat
           let st := storeExplicit search rep body
           .stored st.1 lastLits st.2
 
+/-! ### ZSTD_mergeBlockDelimiters
+
+The in-place loop of the library drops every block delimiter (offset = 0 and matchLength = 0) and adds its literals to the entry that
+follows it - which may be another delimiter: the literals of a RUN of delimiters (blocks without any sequence, empty blocks) all end up on the
+next real sequence.  The literals of the trailing run (nothing follows) are dropped: they are the frame's last literals.
+(Literal lengths are `unsigned`: the model is exact as long as the lengths of the array sum below 2^32, i.e. for any parse of a source
+below 4 GiB.) -/
+
+def isDelim (s : Seq) : Bool := s.offset == 0 && s.ml == 0
+
+/-- `carry` = literals of the delimiters seen since the last real sequence; returns the merged list and the literals left over at the end -/
+def mergeGo : Nat → List Seq → List Seq × Nat
+  | carry, [] => ([], carry)
+  | carry, s :: rest =>
+    if isDelim s then mergeGo (carry + s.ll) rest
+    else let r := mergeGo 0 rest; (⟨s.offset, s.ll + carry, s.ml⟩ :: r.1, r.2)
+
+/-- the first `ZSTD_mergeBlockDelimiters(seqs, n)` entries of the array after the call -/
+def mergeDelims (l : List Seq) : List Seq := (mergeGo 0 l).1
+
+/-- the literals that are in no entry any more (trailing delimiters): the last literals of the frame -/
+def mergeDropped (l : List Seq) : Nat := (mergeGo 0 l).2
+
+/-- bytes described by a list -/
+def total : List Seq → Nat
+  | [] => 0
+  | s :: rest => s.ll + s.ml + total rest
+
 end ZstdVerif.SeqApi
